@@ -59,5 +59,5 @@ def main(ck):
         ck.notes.append("sanity_* entries of input_distribution are a statistical illustration (energy from cutoff 1 vs a generous cutoff), not a checked claim")
     ck.assumptions.append("the clause 'hence reaches the same averages' is physics (truncation error of the SSE series for cutoff > n with margin); proved is the headroom invariant only")
     ck.assumptions.append("a user who lowers the cutoff by hand with set_cutoff below the container length leaves the domain (Inv) of the run theorems")
-    full_step.run(ck, modes=["ising"])   # generic mode re-enabled once the loop model is re-synced to fix 7073632 (F22)
+    full_step.run(ck)   # whole-timestep exact trajectories, Ising and generic sampler
     return ck.finish(RULE)
